@@ -243,6 +243,16 @@ func (core *JApiCore) checkPathSchemaPropertyUserType(typeName string) error {
 		return fmt.Errorf(`%s (%s)`, jerr.UserTypeNotFound, typeName)
 	}
 
+	// Types that refer to each other ("@a | @b" and "@b | @a") must not be followed in circles.
+	if _, ok := core.pathPropertyTypesInProgress[typeName]; ok {
+		return nil
+	}
+	if core.pathPropertyTypesInProgress == nil {
+		core.pathPropertyTypesInProgress = make(map[string]struct{})
+	}
+	core.pathPropertyTypesInProgress[typeName] = struct{}{}
+	defer delete(core.pathPropertyTypesInProgress, typeName)
+
 	// A type of the "any" or "empty" notation has no schema to look into.
 	if _, ok := ut.Schema.(*catalog.ExchangePseudoSchema); ok {
 		return nil
